@@ -49,6 +49,14 @@ def _no_ngram_survives(c):
     return max(lens + [0]) < p.get("ngram_size", 1)
 
 
+def _empty_vocabulary(c):
+    import collections
+
+    mo = c["params"].get("min_occurrences")
+    cnt = collections.Counter(t for d in c["train"] for t in d)
+    return not any(mo is None or k >= mo for k in cnt.values())
+
+
 def check_case(ctx, c):
     import vectorizers as V
 
@@ -88,6 +96,8 @@ def check_case(ctx, c):
     except Exception as e:
         if name == "Ngram" and _no_ngram_survives(c):
             return ctx.skip("rejected input: no n-gram survives the token stage")
+        if name in ("Ngram", "Skipgram") and _empty_vocabulary(c):
+            return ctx.skip("rejected input: every token is pruned")
         expl = "/explicit-reference" if c.get("explicit_reference") else ""
         viol("fit-raises/%s%s" % (type(e).__name__, expl), "fit raised %s: %s" % (type(e).__name__, str(e)[:200]))
         return
